@@ -130,7 +130,11 @@ pub fn gen_tail(rng: &mut Rng) -> Vec<Seal> {
             // arbitrary sequence of up to 4 sealing attributes
             let n = 1 + rng.usize(4);
             (0..n)
-                .map(|_| match rng.below(6) {
+                .map(|_| match rng.below(7) {
+                    6 => {
+                        let (ty, n) = *rng.pick(&[(MI, 16usize), (MI, 24), (MI, 0), (MI, 19), (MI, 21), (MI256, 36), (MI256, 18), (MI256, 12), (MI256, 0), (MI256, 33)]);
+                        Seal::OddLen(ty, n)
+                    }
                     0 => Seal::Sha1,
                     1 => Seal::Sha256(sha_len(rng)),
                     2 => Seal::Fingerprint,
@@ -207,6 +211,7 @@ pub fn gen_boundary_message(rng: &mut Rng, target_total: usize, seals: &[Seal], 
             Seal::Sha1 | Seal::BadSha1 => 24,
             Seal::Sha256(n) | Seal::BadSha256(n) => 4 + n,
             Seal::Fingerprint | Seal::BadFingerprint => 8,
+            Seal::OddLen(_, n) => 4 + (n + 3) / 4 * 4,
         })
         .sum();
     let body_target = target_total.saturating_sub(tail_len);
